@@ -12,7 +12,9 @@ asked for a pool, the node may refuse exactly one connection attempt, the pool c
 either order, either session's pool connection may die); an up host must have a pool in every session.
 
 Engine S: two or three executor workers start with on_up / on_down / a due reconnection attempt /
-remove_host for the same host, or with the two sessions' pool creations of a host addition / of on_up
+remove_host for the same host, or with the two sessions' pool creations of a host addition / of on_up, or
+(two sessions) with on_up() / the reconnection attempt that calls it / the node-list refresh that calls on_add()
+on one worker while the other worker takes the pool creations as they are queued
 (SCENARIOS), and then drain the executor; every source line of the
 state-change handlers is a scheduling point; all executions within the preemption bound are judged
 by the same oracle once everything has run.
@@ -43,7 +45,12 @@ META = {
             'repeats (up,up / down,down / add,add / same instance removed twice / up or add after remove) and agrees with '
             'Host.is_up and metadata membership.  Schedule layer: 2-3 executor workers start with on_up / on_down / a due '
             'reconnection attempt / remove_host for the same host, or (two sessions) with the two pool creations that on_add() / '
-            'on_up() queued, none or exactly one of them refused, and then drain the executor; every source line of the '
+            'on_up() queued, none or exactly one of them refused, or (two sessions, scenarios *-2s-body*) with the BODY of '
+            'on_up() (called for a STATUS UP event, or by the reconnection attempt that got through) / of on_add() (called by '
+            'the node-list refresh that found the new node) on one worker while an idle second worker takes the pool '
+            'creations as that body queues them, so that a session\'s pool creation can complete between any two lines of '
+            'the loop that asks the sessions for their pools; no attempt, exactly the first or exactly the second connection '
+            'attempt refused; and then drain the executor; every source line of the '
             'state-change handlers is a scheduling point; all executions within the preemption bound are judged by the same '
             'oracle after the executor ran dry.',
     'note': 'Handlers are atomic in the history layer; intra-handler preemption only in the schedule layer (line granularity, '
@@ -262,6 +269,11 @@ def judge(st, params, part, data, when, fp='C25/'):
     have exactly one live reconnector (evidence)."""
     from vt.c25lib import views
     ignored = set(params.get('ignored', ()))
+    for a in params.get('ignore_while_down', ()):
+        # a host whose distance depends on its liveness is ignored exactly while the policy believes it down
+        hh = st.host(a)
+        if hh is not None and hh in st.lbp._told_down:
+            ignored.add(a)
     # the executor must be idle: the statement is about the state after each change was processed
     idle = not st.w.tasks
     nlive_down = 0
@@ -372,6 +384,9 @@ def _focus():
     return codes
 
 
+# start of the two-session on_up scenarios: the node refuses, both sessions' pool connections die, on_down ran
+_DOWN2 = [('mode', T, 'down'), ('fail', T), ('fail', T, 1), ('drain',)]
+
 SCENARIOS = {
     # name: (setup history in the history-layer alphabet, racing calls)
     # the host is up; its connection failed (on_down) while a STATUS UP event's on_up runs
@@ -404,6 +419,23 @@ SCENARIOS = {
               ['task', 'task'], dict(sessions=2)),
     'up-2s-one-refused': ([('mode', T, 'down'), ('fail', T), ('fail', T, 1), ('drain',), ('mode', T, 'up'), ('fire',), ('task', 0),
                            ('mode', T, 'once')], ['task', 'task'], dict(sessions=2)),
+    # ---- two sessions, the BODY of on_up() / on_add() on one executor worker while a second worker takes the pool
+    # creations as they are queued: a session's pool creation can complete (and its completion callback run) between
+    # any two lines of the loop that asks the sessions for their pools, in particular after the first session's future
+    # was registered and before the second session was asked.
+    # the host is down; a STATUS UP event's on_up() runs on one worker
+    'up-2s-body': (_DOWN2 + [('mode', T, 'up')], ['on_up', 'worker'], dict(sessions=2)),
+    # ... the node refuses exactly the first / exactly the second of the two connection attempts
+    'up-2s-body-first-refused': (_DOWN2 + [('mode', T, 'once')], ['on_up', 'worker'], dict(sessions=2)),
+    'up-2s-body-second-refused': (_DOWN2 + [('mode', T, 'second')], ['on_up', 'worker'], dict(sessions=2)),
+    # the host is down; its due reconnection attempt gets through and calls on_up() on the worker that ran it
+    'up-2s-body-reconnect': (_DOWN2 + [('mode', T, 'up'), ('fire',)], ['task', 'worker'], dict(sessions=2)),
+    # a node joined: the node-list refresh finds it and calls on_add() on the worker that ran the refresh
+    'add-2s-body': ([('join', T), ('fire',)], ['task', 'worker'], dict(sessions=2, initial_gone=[T])),
+    'add-2s-body-first-refused': ([('join', T), ('fire',), ('mode', T, 'once')], ['task', 'worker'],
+                                  dict(sessions=2, initial_gone=[T])),
+    'add-2s-body-second-refused': ([('join', T), ('fire',), ('mode', T, 'second')], ['task', 'worker'],
+                                   dict(sessions=2, initial_gone=[T])),
 }
 
 
@@ -621,6 +653,8 @@ def run(ctx):
                'the host is up; on_remove for a Host whose on_add had not been delivered yet is tolerated')
     ctx.assume('the recording policy belongs to exactly one execution profile (the driver\'s default graph profiles wrap the default '
                'profile\'s policy and would forward every notification to it once more each, by design)')
+    ctx.assume('schedule layer, *-2s-body* scenarios: the executor has two workers (the driver\'s default executor_threads=2); one runs '
+               'on_up()/on_add(), the other is idle and takes tasks as soon as they are queued')
     ctx.assume('schedule layer: the server answers instantly (no reactor thread); line-level atomicity of CPython statements')
 
 
